@@ -36,12 +36,87 @@ def short(node, n=110):
     return s if len(s) <= n else s[: n - 3] + '...'
 
 
+def _lockish(expr):
+    d = dotted(expr)
+    if not d:
+        return False
+    tail = d.split('.')[-1].lower()
+    return tail.endswith('lock') or tail.endswith('condition')
+
+
+class _Canon(ast.NodeTransformer):
+    """Canonical forms, so that rules see one shape for equivalent code:
+    x = x <op> e        -> x <op>= e
+    f(b=.., a=..)       -> keywords sorted by name (**kw last)
+    pass                -> removed from non-empty blocks
+    L.acquire(); try: B finally: L.release()   ->   with L: B   (L a lock/condition)"""
+
+    def visit_Assign(self, node):
+        self.generic_visit(node)
+        if len(node.targets) == 1 and isinstance(node.targets[0], (ast.Name, ast.Attribute, ast.Subscript)) and isinstance(node.value, ast.BinOp):
+            t = node.targets[0]
+            if isinstance(node.value.op, (ast.Add, ast.Sub, ast.Mult)) and ast.dump(_as_load(t)) == ast.dump(node.value.left):
+                return ast.copy_location(ast.AugAssign(target=t, op=node.value.op, value=node.value.right), node)
+        return node
+
+    def visit_Call(self, node):
+        self.generic_visit(node)
+        if len(node.keywords) > 1:
+            named = [k for k in node.keywords if k.arg is not None]
+            star = [k for k in node.keywords if k.arg is None]
+            node.keywords = sorted(named, key=lambda k: k.arg) + star
+        return node
+
+    def _block(self, stmts):
+        out = []
+        i = 0
+        stmts = [s for s in stmts if not isinstance(s, ast.Pass)] or stmts[:1]
+        while i < len(stmts):
+            s = stmts[i]
+            nxt = stmts[i + 1] if i + 1 < len(stmts) else None
+            if (isinstance(s, ast.Expr) and isinstance(s.value, ast.Call) and isinstance(s.value.func, ast.Attribute) and s.value.func.attr == 'acquire'
+                    and not s.value.args and not s.value.keywords and _lockish(s.value.func.value) and isinstance(nxt, ast.Try)
+                    and not nxt.handlers and not nxt.orelse and len(nxt.finalbody) == 1 and isinstance(nxt.finalbody[0], ast.Expr)
+                    and isinstance(nxt.finalbody[0].value, ast.Call) and isinstance(nxt.finalbody[0].value.func, ast.Attribute)
+                    and nxt.finalbody[0].value.func.attr == 'release' and ast.dump(nxt.finalbody[0].value.func.value) == ast.dump(s.value.func.value)):
+                w = ast.With(items=[ast.withitem(context_expr=s.value.func.value, optional_vars=None)], body=nxt.body)
+                out.append(ast.copy_location(w, s))
+                i += 2
+                continue
+            out.append(s)
+            i += 1
+        return out
+
+    def generic_visit(self, node):
+        super().generic_visit(node)
+        for f in ('body', 'orelse', 'finalbody'):
+            b = getattr(node, f, None)
+            if isinstance(b, list) and b and isinstance(b[0], ast.stmt):
+                setattr(node, f, self._block(b))
+        return node
+
+
+def _as_load(t):
+    import copy
+    t2 = copy.deepcopy(t)
+    for n in ast.walk(t2):
+        if hasattr(n, 'ctx'):
+            n.ctx = ast.Load()
+    return t2
+
+
+def canonicalise(tree):
+    tree = _Canon().visit(tree)
+    ast.fix_missing_locations(tree)
+    return tree
+
+
 class Module:
     def __init__(self, name, path, source):
         self.name = name  # short name: 'futures', '__init__'
         self.path = path  # path relative to repo: s3transfer/futures.py
         self.source = source
-        self.tree = ast.parse(source, filename=path)
+        self.tree = canonicalise(ast.parse(source, filename=path))
         self.imports = {}  # local name -> (module short name or external dotted, attr or None)
         self.classes = {}
         self.functions = {}
